@@ -500,11 +500,21 @@ impl Ctx {
             };
         }
         if self.cycles_only {
-            if let (Class::Ok, Actual::Ok(states)) = (ro.class, act) {
-                if let Some(exp) = self.expected_cycles(ro) {
-                    if exp != *states as u32 {
-                        return Some(Diff { what: format!("states: expected {} ({}), got {}", exp, cyc_text(ro), states) });
+            let defined = ro.class == Class::Ok || (ro.class == Class::Any && ro.cyc_valid);
+            if defined {
+                match act {
+                    Actual::Ok(states) => {
+                        if let Some(exp) = self.expected_cycles(ro) {
+                            if exp != *states as u32 {
+                                return Some(Diff { what: format!("states: expected {} ({}), got {}", exp, cyc_text(ro), states) });
+                            }
+                        }
                     }
+                    Actual::Err(e) if ro.class == Class::Any => {
+                        // result left open (register overlap) but the operand is mapped: the instruction must execute and be charged
+                        return Some(Diff { what: format!("no charge: the instruction failed ({}) although its operand is mapped; expected {}", e, cyc_text(ro)) });
+                    }
+                    _ => {}
                 }
             }
             return None;
